@@ -33,6 +33,6 @@ Framed == b.done => LET o == <<CR, LF>> \o b.out
 \* always TRUE; witness lines for the check (non-vacuity: the loop terminates, stuffs, cuts)
 Witnessed ==
   /\ (b.done /\ lines = -1 /\ msg = <<DOT, LF, 120>> /\ b.out = <<DOT, DOT, CR, LF, 120, CR, LF, CR, LF, DOT, CR, LF>> => PrintT("COV BlastStuffedPartialLast"))
-  /\ (b.done /\ lines = 1 /\ msg = <<120, LF, LF, DOT, LF, 120, LF>> /\ b.out = <<120, CR, LF, CR, LF, DOT, DOT, CR, LF, CR, LF, DOT, CR, LF>> => PrintT("COV BlastTopCut"))
+  /\ (b.done /\ lines = 1 /\ msg = <<LF, DOT, LF, 120, LF>> /\ b.out = <<CR, LF, DOT, DOT, CR, LF, CR, LF, DOT, CR, LF>> => PrintT("COV BlastTopCut"))
   /\ (b.done /\ lines = 0 /\ msg = <<120, LF, 120, LF>> /\ b.out = RetrBody(msg) => PrintT("COV BlastNoSeparatorAllHeader"))
 =============================================================================
